@@ -318,7 +318,7 @@ class Interp:
             self.ev_ord[k] = 1 + sum(1 for (kk, _) in self.ev_ord if kk == kind)
         return self.ev_ord[k]
 
-    def events(self, text, states, base=0):
+    def events(self, text, states):
         """apply, left to right, the lock events / calls / context dereferences of an expression"""
         if not states or not text:
             return states
@@ -350,7 +350,7 @@ class Interp:
             args = split_args(text[p + 1:q])
             if name == "coap_lock_unlock":
                 self.n_unlock += 1
-                o = self.ordinal("unlock", base + m.start())
+                o = self.ordinal("unlock", (id(text), m.start()))
                 if any(d == 0 for d, _ in states):
                     self.windows.add(("u", o))
                     self.needs_held = True
@@ -359,7 +359,7 @@ class Interp:
                 pos = q + 1
             elif name == "coap_lock_lock":
                 self.n_lock += 1
-                o = self.ordinal("lock", base + m.start())
+                o = self.ordinal("lock", (id(text), m.start()))
                 what = "coap_lock_lock(%s)#%d" % (squeeze(args[0] if args else "", 24), o)
                 if len(args) < 2 or not LEAVES_RX.search(args[-1]):
                     self.problem("fail", "%s: the failure action `%s` does not leave the function" % (what, squeeze(args[-1] if args else "", 40)), ())
@@ -369,8 +369,9 @@ class Interp:
                 pos = q + 1
             elif name in REL_MACROS:
                 self.n_rel += 1
-                o = self.ordinal("rel", base + m.start())
-                what = "%s(%s)#%d" % (name, squeeze(args[0] if args else "", 24), o)
+                o = self.ordinal("rel", (id(text), m.start()))
+                carg = args[1] if name == "coap_lock_callback_ret_release" and len(args) > 1 else args[0] if args else ""
+                what = "%s(%s)#%d" % (name, squeeze(carg, 24), o)
                 if len(args) < 3 or not LEAVES_RX.search(args[-1]):
                     self.problem("fail", "%s: the failure action `%s` does not leave the function" % (what, squeeze(args[-1] if args else "", 40)), ())
                 for (d, f), tr in states.items():
